@@ -275,6 +275,7 @@ def run_check(mod, tier, seed, replay=None):
         return 0
 
     total = Stats()
+    fail_stage = {}
     per_stage = {}
     exhaustive_all = True
 
@@ -319,6 +320,8 @@ def run_check(mod, tier, seed, replay=None):
         }
         if not stage.exhaustive:
             exhaustive_all = False
+        for b in sst.failures:
+            fail_stage.setdefault(b, stage.name)
         total.merge(sst)
 
     # 3. optional extra phase in the parent (e.g. subprocess validation)
@@ -335,7 +338,7 @@ def run_check(mod, tier, seed, replay=None):
             continue
         safe = hashlib.blake2b(b.encode(), digest_size=6).hexdigest()
         path = os.path.join("replays", "%s-%s.json" % (prop, safe))
-        stage_name = case.get("_stage") if isinstance(case, dict) else None
+        stage_name = fail_stage.get(b)
         with open(os.path.join(VERIF, path), "w") as f:
             json.dump({"property": prop, "bucket": b, "detail": detail, "stage": stage_name,
                        "case": jsonable(case), "seed": seed, "tier": tier}, f, ensure_ascii=False,
